@@ -63,6 +63,11 @@ type retryNet struct {
 	events []string
 	// which error value a faulting stream returns (both are non-EOF errors; not part of the model)
 	altFault bool
+	// suite retry-e2e: the buffer size of every body Read, in order (the consumers inside apko choose them)
+	logSizes bool
+	sizes    []int
+	// suite retry-e2e: the ETag the server sends with every answer ("" = none)
+	etag string
 }
 
 func (s *retryNet) log(e string) { s.events = append(s.events, e) }
@@ -91,6 +96,9 @@ func (s *retryNet) endErr(end string) (string, error) {
 }
 
 func (b *retryBody) Read(p []byte) (int, error) {
+	if b.net.logSizes {
+		b.net.sizes = append(b.net.sizes, len(p))
+	}
 	if b.closed {
 		b.net.log("bf")
 		return 0, errRetryClosed
